@@ -27,4 +27,23 @@ PROPS = {
                   "regenerated": ["bootstrap.pl op/3 directives"], "observed_only": ["Parser (probe)", "WriteCompound (probe)"]},
         assumptions=["pattern variables of current_op/3 calls are pairwise distinct (the model matches argument-wise)"],
     ),
+    "C17": dict(
+        level_text="Proof: engine/dcg.go (expandDCG, dcgBody, dcgCBody with the dcgConstr table, dcgNonTerminal, dcgTerminals, Phrase), expand of builtin.go and seqIterator/altIterator of iterator.go are modelled in Lean over abstract terms with an explicit fresh-variable supply. Kernel-checked for ALL terms: the model equals 'read the body, apply the reference translation of the ISO DCG draft' including every error (C17_model_refines_spec, C17_expand_refines_spec, C17_expand_total); every successful translation is a correct threading of the two hidden arguments in the relational specification Threads with pairwise distinct fresh chain variables (C17_threading, C17_threading_vars, C17_nonconsuming, C17_pushback); expand_term/2 and phrase/3 use the same translation and the clause body instantiated by a call is exactly phrase/3's goal (C17_expand_vs_phrase); the compiler's seqIterator yields the ISO conjuncts for any nesting, so a translated !//0 is a clause-level cut (C17_conjunction_flat, C17_cut_clause_level, the repair of D16). Semantic preservation (answers of a reference SLD evaluation of the translated body = the list denotation) is proved for the fragment stated in C17_translation_sound_complete_partial; the full statement is kept open. The meaning itself is checked on the real interpreter by c17.lang: every input list up to the bound, recognition, remainders and generation, against the executable denotation.",
+        level_note="Trusted: Lean kernel; the hand-written model of dcg.go/iterator.go (checked by c17.expand, not proved); the specification files Spec/Grammar.lean, Spec/DcgSubst.lean, Spec/DcgSLD.lean; harness canonicalisation. The VM that runs the translated clauses is not modelled here (C01/C03): c17.lang observes it.",
+        technique="Lean 4: model = specification by functional induction over the translation; relational threading specification; substitution lemma; reference SLD vs list denotation by induction on fuel and body; differential testing of the real interpreter against the executable denotation on exhaustive small inputs",
+        lean_module="PrologVerif.Properties.C17",
+        ns="PrologVerif.C17",
+        streams=[dict(name="c17.expand", quick=3000, thorough=30000),
+                 dict(name="c17.lang", quick=700, thorough=4000, timeout=3000)],
+        rule="c17.expand: generated terms (well-formed rules with every body construct at depth <= 4, push-back, strings, left-nested conjunctions; malformed bodies/heads/push-backs; non-rules) -> expand_term/2, expandDCG, dcgBody (what phrase/3 calls) and the compiler's split of the translated body, compared structurally up to variable renaming with the model and with the reference translation; non-trivial = a well-formed rule containing !, \\+, -> or push-back. c17.lang: generated terminating grammars (1-5 non-terminals, arguments, every construct at nesting <= 3, recursion guarded by consumption, push-back never longer than what the body consumes, call//N closures, phrase//1, run-time bodies, strings; loaded as text or by expand_term+assertz) x EVERY list of length <= 4 (thorough: every 8th case <= 6) over {x,y,z}: phrase/3 with all remainders, phrase/2, and generation mode for non-recursive grammars, answers in order with bindings; non-trivial = the grammar contains at least one of !, \\+, ->, push-back; distinct = distinct case text",
+        trusted=[
+            "modelled (hand-written, correspondence-checked by c17.expand): engine/dcg.go expandDCG, dcgBody, dcgCBody, dcgConstr, dcgNonTerminal, dcgTerminals, Phrase (goal construction); engine/builtin.go expand (no user term_expansion/2); engine/vm.go piArg; engine/iterator.go seqIterator, altIterator, ListIterator as used by dcgTerminals",
+            "specification (read it): Spec/Grammar.lean (reader, Threads, reference translation, denotation), Spec/DcgSubst.lean (unification without occurs check), Spec/DcgSLD.lean (reference SLD evaluation)",
+            "not modelled: the VM executing the translated clauses (compile, exec, Force), call/N, \\+, ->, ; as implemented by bootstrap.pl — observed through c17.lang against the denotation (ISO cut semantics) and against the denotation with the engine's cut barriers (model column)",
+        ],
+        modelled={"hand_modelled": ["expandDCG", "dcgBody", "dcgCBody", "dcgConstr", "dcgNonTerminal", "dcgTerminals", "Phrase (goal)", "expand", "piArg", "seqIterator", "altIterator"],
+                  "regenerated": [], "observed_only": ["VM.exec", "Promise.Force", "Call/callN", "bootstrap.pl control constructs", "text loader"]},
+        assumptions=["no user-defined term_expansion/2", "terms handed to the translation are finite (no cyclic bindings)",
+                     "goals inside {}//1 in generated grammars are restricted to true, fail, !, =, \\=, ==, \\== and conjunctions (so that the denotation is executable)"],
+    ),
 }
